@@ -12,6 +12,7 @@ import FendModel.Proofs.BigUintShift
 import FendModel.Proofs.BigUintBitwise
 import FendModel.Proofs.BigUintShiftN
 import FendModel.Proofs.Combinatorics
+import FendModel.Proofs.Rounding
 
 namespace Fend.C10
 open Fend Fend.BigUint
@@ -60,6 +61,48 @@ theorem mod_exact (a b : BigUint) (ha : a.WF) (hb : b.WF) :
 theorem and_exact (a b r : BigUint) (ha : a.WF) (hb : b.WF) (h : bitwiseAnd a b = .ok r) : val r = val a &&& val b := and_val a b r ha hb h
 theorem or_exact (a b r : BigUint) (ha : a.WF) (hb : b.WF) (h : bitwiseOr a b = .ok r) : val r = val a ||| val b := or_val a b r ha hb h
 theorem xor_exact (a b r : BigUint) (ha : a.WF) (hb : b.WF) (h : bitwiseXor a b = .ok r) : val r = val a ^^^ val b := xor_val a b r ha hb h
+
+/-- `floor x` as computed (exact division, half-way comparison, increment): the integer z with z ≤ x < z + 1, for EVERY
+rational x = ±num/den in any representation -/
+theorem floor_exact (x : BigRat) (wx : BigRat.WFQ x) (dx : val x.den ≠ 0) :
+    ∃ n, BigRat.roundWith .floor x = .ok ⟨x.neg, n, .small 1⟩ ∧
+      (let xi : Int := if x.neg then -(val x.num : Int) else (val x.num : Int)
+       let z : Int := if x.neg then -(val n : Int) else (val n : Int)
+       z * (val x.den : Int) ≤ xi ∧ xi < (z + 1) * (val x.den : Int)) := by
+  obtain ⟨n, hn, _, hv⟩ := BigRat.roundWith_val .floor x wx dx
+  refine ⟨n, hn, ?_⟩
+  have h := BigRat.roundMag_floor x.neg (val x.num / val x.den) (val x.num % val x.den) (val x.den)
+    (Nat.mod_lt _ (Nat.pos_of_ne_zero dx))
+  simp only at h
+  rw [← hv, Nat.div_add_mod' (val x.num) (val x.den)] at h
+  exact h
+
+/-- `ceil x`: the integer z with z - 1 < x ≤ z -/
+theorem ceil_exact (x : BigRat) (wx : BigRat.WFQ x) (dx : val x.den ≠ 0) :
+    ∃ n, BigRat.roundWith .ceil x = .ok ⟨x.neg, n, .small 1⟩ ∧
+      (let xi : Int := if x.neg then -(val x.num : Int) else (val x.num : Int)
+       let z : Int := if x.neg then -(val n : Int) else (val n : Int)
+       (z - 1) * (val x.den : Int) < xi ∧ xi ≤ z * (val x.den : Int)) := by
+  obtain ⟨n, hn, _, hv⟩ := BigRat.roundWith_val .ceil x wx dx
+  refine ⟨n, hn, ?_⟩
+  have h := BigRat.roundMag_ceil x.neg (val x.num / val x.den) (val x.num % val x.den) (val x.den)
+    (Nat.mod_lt _ (Nat.pos_of_ne_zero dx))
+  simp only at h
+  rw [← hv, Nat.div_add_mod' (val x.num) (val x.den)] at h
+  exact h
+
+/-- `round x`: the nearest integer, ties away from zero -/
+theorem round_exact (x : BigRat) (wx : BigRat.WFQ x) (dx : val x.den ≠ 0) :
+    ∃ n, BigRat.roundWith .round x = .ok ⟨x.neg, n, .small 1⟩ ∧
+      (2 * val x.num ≤ 2 * val n * val x.den + val x.den ∧ 2 * val n * val x.den ≤ 2 * val x.num + val x.den) ∧
+      (2 * (val x.num % val x.den) = val x.den → val n = val x.num / val x.den + 1) := by
+  obtain ⟨n, hn, _, hv⟩ := BigRat.roundWith_val .round x wx dx
+  refine ⟨n, hn, ?_⟩
+  have h := BigRat.roundMag_round x.neg (val x.num / val x.den) (val x.num % val x.den) (val x.den)
+    (Nat.mod_lt _ (Nat.pos_of_ne_zero dx))
+  simp only at h
+  rw [← hv, Nat.div_add_mod' (val x.num) (val x.den)] at h
+  exact h
 
 /-- floor: with `|x| = q + r/den`, the signed result `z` satisfies `z ≤ x < z + 1` -/
 theorem floor_decision (neg : Bool) (q r den : Nat) (hr : r < den) :
